@@ -152,6 +152,20 @@ type edgeCond struct {
 	Succ int // 0 = true edge, 1 = false edge
 }
 
+// Norm returns the edge's condition with leading negations removed (a
+// tagless switch case `case !x:` is built as a NOT value in x/tools v0.29)
+// and the successor index adjusted accordingly.
+func (e edgeCond) Norm() (ssa.Value, int) {
+	c, s := e.If.Cond, e.Succ
+	for {
+		u, ok := c.(*ssa.UnOp)
+		if !ok || u.Op != token.NOT {
+			return c, s
+		}
+		c, s = u.X, 1-s
+	}
+}
+
 // dominatingEdges lists the If edges every path from entry to in must take:
 // edge (d -> succ i) is listed iff in's block becomes unreachable from the
 // entry block once that edge is removed.
